@@ -6,6 +6,7 @@ CONSTANTS
   Global = TRUE
   D = 1
   DropWhenBusy = FALSE
+  LeakOnSibling = FALSE
   Export = FALSE
 INVARIANTS TypeOK BoundedRefresh
 PROPERTIES Live
